@@ -362,6 +362,9 @@ class ErrorTask(Task):
         self.response_headers.extend(headers)
         self.set_close_on_finish()
         self.content_length = len(body)
+        if getattr(self.request, "command", None) == "HEAD":
+            # a response to HEAD has no body
+            body = b""
         self.write(body)
 
 
